@@ -38,8 +38,10 @@ import (
 	"fmt"
 	"net/http"
 	"os"
+	"runtime/debug"
 	"runtime/pprof"
 	"sort"
+	"strconv"
 	"strings"
 	"sync"
 	"time"
@@ -504,6 +506,7 @@ type cluster struct {
 	sr      [2]*collect.StressRelief
 	ctl     [2]*cache.VerifSentCacheCtl
 	lastSeq [2]int
+	cbIdx   [2]int     // index of the current collector's reload callback in the node's MockConfig
 	hmu     sync.Mutex // serialises the peer handlers (a flush may send several batches concurrently)
 }
 
@@ -541,6 +544,7 @@ func newCluster() *cluster {
 		c.n[i] = pipeline.New(pipeline.Options{Config: newConfig(), Self: addrs[i], Peers: []string{addrs[1-i]}, MaxBatchSize: 128,
 			Collector: func(n *pipeline.Node) collect.Collector {
 				c.rc[i] = nodecoll.New(n)
+				c.cbIdx[i] = len(n.Cfg.Callbacks) - 1 // registered last, by the collector's start
 				c.rc[i].OutgoingCap = 16 // >= traces decided per tick (<= 2 per scenario)
 				c.cw[i] = &collWrap{real: c.rc[i]}
 				return c.cw[i]
@@ -576,7 +580,18 @@ func (c *cluster) reset(rate uint64) {
 		n.Cfg.StressRelief.Mode = "never"
 		n.Cfg.StressRelief.SamplingRate = rate
 		n.Cfg.Mux.Unlock()
+		nCb := len(n.Cfg.Callbacks)
 		c.rc[i].Reset()
+		// every collector registers a reload callback that keeps it reachable for ever: drop the one of the
+		// collector that has just been stopped (nothing in this check reloads a configuration)
+		n.Cfg.Mux.Lock()
+		if len(n.Cfg.Callbacks) != nCb+1 {
+			ev.Harness("a fresh collector registered %d reload callbacks, expected 1", len(n.Cfg.Callbacks)-nCb)
+		}
+		n.Cfg.Callbacks[c.cbIdx[i]] = n.Cfg.Callbacks[nCb]
+		n.Cfg.Callbacks[nCb] = nil
+		n.Cfg.Callbacks = n.Cfg.Callbacks[:nCb]
+		n.Cfg.Mux.Unlock()
 		coll := c.rc[i].Coll
 		coll.Transmission, coll.PeerTransmission = c.tx[i][0], c.tx[i][1]
 		sr := &collect.StressRelief{RefineryMetrics: n.Metrics, Config: n.Cfg, Logger: &logger.NullLogger{},
@@ -850,9 +865,21 @@ func (x *run) handovers(spanEv *mspan, spanNode int) *seqx.Failure {
 		}
 	}
 	// (in a step all hand-overs happen on one node: the span's entry node or the flushed node's peer)
-	if len(real) != len(x.m.handled) {
+	if len(real) > len(x.m.handled) {
+		// P1 (second half): something the clients never sent to this collector was collected as a span — e.g. a
+		// probe that lost its flag, i.e. a copy of a span that was already decided and sent by the other node
+		extra := real[len(real)-1]
+		for k, rh := range real {
+			if k >= len(x.m.handled) || x.m.handled[k].node != rh.node || x.sc.Traces[x.m.handled[k].sp.t].ID != rh.h.TraceID {
+				extra = rh
+				break
+			}
+		}
+		return x.fail("peer:collector-given-a-span-nobody-sent-it", "node %s's collector was handed (%s) an event of trace %s although every span sent so far is accounted for elsewhere (%d hand-overs, %d expected)", nodeName[extra.node], extra.h.Via, extra.h.TraceID, len(real), len(x.m.handled))
+	}
+	if len(real) < len(x.m.handled) {
 		x.idLoss = true
-		return nil // a lost / extra hand-over shows up on the wire (F1, W4); nothing to compare pairwise
+		return nil // a lost hand-over shows up on the wire (F1); nothing to compare pairwise
 	}
 	for k, mh := range x.m.handled {
 		rh := real[k]
@@ -947,7 +974,7 @@ func (x *run) step(e event, idx int) *seqx.Failure {
 
 // canon: see the argument in main(). "" = do not merge.
 func (x *run) canon() string {
-	if x.idLoss {
+	if x.idLoss || os.Getenv("C16_NOMERGE") != "" {
 		return ""
 	}
 	var sb strings.Builder
@@ -1027,8 +1054,7 @@ func (x *run) settle(base int) *seqx.Failure {
 		seq := []event{{Op: "flush", Node: 0, Tx: "up"}, {Op: "flush", Node: 0, Tx: "peer"}, {Op: "flush", Node: 1, Tx: "up"}, {Op: "flush", Node: 1, Tx: "peer"}, {Op: "tick"}}
 		for _, e := range seq {
 			if f := x.step(e, base); f != nil {
-				f.Sig += "@settle"
-				return f
+				return f // (no separate signature: every history is settled, so a latent fault always shows here first)
 			}
 		}
 	}
@@ -1087,7 +1113,12 @@ func (sc *scenarioDef) exec(h []event, verbose bool) (string, string, *seqx.Fail
 	}
 	for k, v := range cnt {
 		fs = append(fs, fmt.Sprintf("%s x%d", k, v))
+		note("span_fates(class/expectation/deliveries)", sc.ruleClass()+" "+k)
 	}
+	for k := range x.facts {
+		note("wire_facts", sc.ruleClass()+" "+k)
+	}
+	R.Add("events_executed_on_the_cluster", int64(x.nSteps))
 	sort.Strings(fs)
 	return canon, strings.Join(fs, ","), nil
 }
@@ -1173,6 +1204,20 @@ func ruleEnumeration(r *ev.Run) *ruleTable {
 				}
 			}
 		}
+		// the same rate on reliever objects that were never configured otherwise (fresh cluster): the verdict
+		// must not depend on the configuration history of the object
+		fresh := getCluster()
+		fresh.reset(rate)
+		for _, id := range ids {
+			for i := 0; i < 2; i++ {
+				_, k, _ := fresh.cw[i].GetStressedSampleRate(id)
+				r.Add("rule_evaluations", 1)
+				if k != keep[id] {
+					r.Violation("rule:verdict-depends-on-configuration-history", fmt.Sprintf("trace %s at rate %d: keep=%v on a reliever reloaded from other rates, keep=%v on node %s's fresh one", id, rate, keep[id], k, nodeName[i]), map[string]any{"id": id, "rate": rate})
+				}
+			}
+		}
+		putCluster(fresh)
 		r.Set(fmt.Sprintf("rule_kept_of_%d_at_rate_%d", len(ids), rate), nKept)
 		if nKept > 0 && nKept < len(ids) {
 			r.Distinct("rule_rates_with_both_verdicts", fmt.Sprint(rate))
@@ -1195,7 +1240,7 @@ func ruleEnumeration(r *ev.Run) *ruleTable {
 	return tab
 }
 
-// normalDrops: does the normal sampler of dataset ds drop trace id on its owner? (real collector, no relief)
+// normalVerdicts: keep verdict of dataset ds's normal sampler for every id, on its owner (real collector, no relief)
 func normalVerdicts(ids []string, owner int, ds string) map[string]bool {
 	cl := getCluster()
 	defer putCluster(cl)
@@ -1241,14 +1286,21 @@ func buildScenarios(r *ev.Run, tab *ruleTable) []*scenarioDef {
 		byOwner[owner[id]] = append(byOwner[owner[id]], id)
 	}
 	suffix := [2]string{"a", "b"}
-	normDrop := [2]map[string]bool{}
+	normKeepOnDropDS := [2]map[string]bool{}
 	for o := 0; o < 2; o++ {
-		normDrop[o] = normalVerdicts(byOwner[o][:64], o, "ds-drop-"+suffix[o])
+		normKeepOnDropDS[o] = normalVerdicts(byOwner[o][:64], o, "ds-drop-"+suffix[o])
 	}
-	// pick(owner, keptAt2, keptAtBig?) -> first ID of that class whose drop-sampler verdict is "drop"
+	for o := 0; o < 2; o++ {
+		for id, k := range normalVerdicts(byOwner[o][:64], o, "ds-keep-"+suffix[o]) {
+			if !k {
+				ev.Harness("the rate-1 sampler of ds-keep-%s dropped trace %s", suffix[o], id)
+			}
+		}
+	}
+	// pick(owner, keptAt2) -> first ID of that class that the drop sampler really drops and rate 2^40 drops
 	pick := func(o int, keepAt2 bool) string {
 		for _, id := range byOwner[o][:64] {
-			if tab.keep[2][id] == keepAt2 && !normDrop[o][id] && !tab.keep[bigRate][id] {
+			if tab.keep[2][id] == keepAt2 && !normKeepOnDropDS[o][id] && !tab.keep[bigRate][id] {
 				return id
 			}
 		}
@@ -1285,8 +1337,28 @@ func buildScenarios(r *ev.Run, tab *ruleTable) []*scenarioDef {
 
 // ---------------------------------------------------------------------------------------------
 
+// R is the run (coverage counters are added from the executions).
+var R *ev.Run
+
+var (
+	noteMu sync.Mutex
+	notes  = map[string]map[string]bool{}
+)
+
+// note records a distinct coverage value; the sorted lists go into the evidence (vacuity guard).
+func note(class, val string) {
+	noteMu.Lock()
+	if notes[class] == nil {
+		notes[class] = map[string]bool{}
+	}
+	notes[class][val] = true
+	noteMu.Unlock()
+}
+
 func main() {
 	r := ev.New("C16", "model_checking")
+	R = r
+	debug.SetGCPercent(800) // thousands of short-lived collectors: fewer collections, far fewer page faults
 	if p := os.Getenv("C16_CPUPROF"); p != "" {
 		if f, err := os.Create(p); err == nil {
 			pprof.StartCPUProfile(f)
@@ -1296,6 +1368,15 @@ func main() {
 	nodecoll.Conformance()
 
 	tab := ruleEnumeration(r)
+	if r.NViolations() > 0 {
+		// the rule itself is not a pure nested function of (trace ID, rate): the table the histories would be
+		// judged against is meaningless, report and stop
+		r.Add("states", 0)
+		r.Add("transitions", 0)
+		r.Set("traces_validated_against_impl", 0)
+		r.Cap("rule table inconsistent: histories not explored")
+		r.Finish()
+	}
 	scs := buildScenarios(r, tab)
 
 	// --replay <file>: print one history step by step
@@ -1315,6 +1396,9 @@ func main() {
 	}
 
 	depth := ev.Pick(r, 5, 7)
+	if d, err := strconv.Atoi(os.Getenv("C16_DEPTH")); err == nil && d > 0 {
+		depth = d // experiments only
+	}
 	workers := 16
 	for si, sc := range scs {
 		sc := sc
@@ -1329,6 +1413,15 @@ func main() {
 			Exec:     func(h []event) (string, string, *seqx.Failure) { return sc.exec(h, false) },
 			MaxDepth: d, Workers: workers,
 		})
+	}
+	for class, vals := range notes {
+		var l []string
+		for v := range vals {
+			l = append(l, v)
+		}
+		sort.Strings(l)
+		r.Set(class, l)
+		r.Set("n_"+class, len(l))
 	}
 	r.Set("traces_validated_against_impl", r.Count("transitions"))
 	r.Set("bounds", map[string]any{"depth": depth, "scenarios": len(scs), "rates": rates, "rule_ids": len(tab.ids),
